@@ -25,7 +25,8 @@ RULE = ("laws: 2..7 argument lists per case (0..6 values each, every type i c r 
         "compressed) so that ties and prefixes are frequent; all k*k comparisons are evaluated and every pair and "
         "triple is checked.  comp: one list written out plus up to 7 of the ways of compressing its constant runs "
         "(N x value, also N x array) and arithmetic runs (range with delta: i c h f d and booleans), inside arrays "
-        "too; all ways when there are at most 48.  Thorough adds an exhaustive block: every list of length <= 3 over a "
+        "too; all ways when there are at most 48.  Every run has one block with every pair of 55 boundary bit patterns of f and d (zeros, denormals, "
+        "1-ulp neighbours, max, inf, NaNs) as single values.  Thorough adds an exhaustive block: every list of length <= 3 over a "
         "9-value universe (820 lists, all 5.5e8 triples via bit sets) and every list of length <= 2 over 27 values.  "
         "Non-trivial = the case has a tie between differently written lists, a proper prefix, an array or a compressed run.")
 TRUSTED = ["harness/h_C16.cpp builds rtosc_arg_val_t arrays (exact-size heap copies) from the case text and calls "
@@ -531,8 +532,23 @@ U27 = ([("i", -1), ("i", 0), ("h", 0), ("c", 65), ("r", 0), ("t", 1), ("t", 0), 
         ("s", None), ("s", b""), ("s", b"a"), ("S", b"a"), ("b", b""), ("b", b"\0"), ("N",), ("I",), ("T",),
         ("a", 70, ()), ("a", 84, ()), ("a", 78, ()), ("a", 84, (("F",), ("T",))), ("a", 105, (("i", 0),))])
 
+def float_block():
+    """every pair of boundary patterns of f and d as single values: the model's
+    order key of the bit patterns against the hardware comparison"""
+    m32 = [0x00000000, 0x00000001, 0x007fffff, 0x00800000, 0x00800001, 0x3f7fffff, 0x3f800000, 0x3f800001,
+           0x40490fdb, 0x4b800000, 0x7f7ffffe, 0x7f7fffff, 0x7f800000]
+    m64 = [0x0000000000000000, 0x0000000000000001, 0x000fffffffffffff, 0x0010000000000000, 0x3fefffffffffffff,
+           0x3ff0000000000000, 0x3ff0000000000001, 0x400921fb54442d18, 0x4340000000000000, 0x7feffffffffffffe,
+           0x7fefffffffffffff, 0x7ff0000000000000]
+    vals = [("f", x | sg) for x in m32 for sg in (0, 0x80000000)]
+    vals += [("f", 0x7fc00000), ("f", 0x7f800001), ("f", 0xffffffff)]
+    vals += [("d", x | sg) for x in m64 for sg in (0, 0x8000000000000000)]
+    vals += [("d", 0x7ff8000000000000), ("d", 0xfff0000000000001)]
+    return "laws " + " ".join(tok(v) for v in vals)
+
 def gen(rng, tier, dist):
-    out = []
+    out = [float_block()]
+    bump(dist, "laws:float-boundary-block")
     nl, nc, want = (5000, 1800, 6) if tier == "quick" else (150000, 50000, 8)
     for _ in range(nl): out.append(gen_laws(rng, dist))
     for _ in range(nc): out.append(gen_comp(rng, dist, want))
